@@ -23,7 +23,7 @@ func (s *Server) clientRequestFilteringSettings(dctx *dnsContext) (setts *filter
 }
 
 // filterDNSRequest applies the dnsFilter and sets dctx.proxyCtx.Res if the
-// request was filtered.
+// request was filtered.  s.serverLock is expected to be locked.
 func (s *Server) filterDNSRequest(dctx *dnsContext) (res *filtering.Result, err error) {
 	pctx := dctx.proxyCtx
 	req := pctx.Req
@@ -130,7 +130,10 @@ func (s *Server) filterDNSResponse(dctx *dnsContext) (err error) {
 		} else if res != nil && res.IsFiltered {
 			dctx.result = res
 			dctx.origResp = pctx.Res
+
+			s.serverLock.RLock()
 			pctx.Res = s.genDNSFilterMessage(pctx, res)
+			s.serverLock.RUnlock()
 
 			log.Debug("dnsforward: matched %q by response: %q", pctx.Req.Question[0].Name, host)
 
